@@ -461,7 +461,7 @@ Section TrustedView.
     Forall wf_entry es -> wf_ip peer -> listed es peer ->
     exists xs, announced h xs /\
     s_view (serve parse_uri fixed es peer c h) =
-    let uri := match hdr XFU h with Some v => if nonempty v then parse_uri v else None | None => None end in
+    let uri := match hdr XFU h with Some v => if nonempty v then Some (read_uri parse_uri v) else None | None => None end in
     {| v_method := override (hdr XFM h) (c_method c);
        v_scheme := override (hdr XFP h) (if c_tls c then "https" else "http");
        v_host := override (hdr XFH h) (c_host c);
@@ -594,7 +594,7 @@ Section Handle.
     listed' m cfg (r_remote r) ->
     exists xs, announced_of (hdr_ci FWD raw) (hdr_ci XFF raw) xs /\
     s_view (handle' m cfg r raw) =
-    let uri := match hdr_ci XFU raw with Some v => if nonempty v then parse_uri v else None | None => None end in
+    let uri := match hdr_ci XFU raw with Some v => if nonempty v then Some (read_uri parse_uri v) else None | None => None end in
     {| v_method := override (hdr_ci XFM raw) (r_method r);
        v_scheme := override (hdr_ci XFP raw) (scheme_of r);
        v_host := override (hdr_ci XFH raw) (r_host r);
